@@ -56,6 +56,11 @@ CHEAP = {"Noh", "Noh2", "IGEOS", "EHEP", "Mader", "Kenamond1", "Kenamond2", "Ken
          "Hutchens1"} | {"Cog%d" % n for n in (1, 2, 3, 4, 5, 6, 7, 8, 9, 11, 12, 18, 19, 20, 21)}
 GEN = {"M": [("M*2", 2.0), ("M/5", 0.2)], "L": [("L*10", 10.0), ("L/3", 1.0 / 3.0)], "T": [("T*4", 4.0), ("T/7", 1.0 / 7.0)],
        "Th": [("Th*5", 5.0)], "LT": [("LT*2", 2.0), ("LT/3", 1.0 / 3.0)]}
+# three extreme (but consistent) unit systems, applied to the root only (words of length one): the quantifier is 'all positive scale
+# factors', and an absolute literal with hidden units (a density floor, numpy.isclose's atol on a time or a radius, a cushion on a
+# validity guard) is invisible under factors of order one.  micro: lengths x 1e-7, times x 1e-9 (densities unchanged, velocities x
+# 100); dilute: masses x 1e-24 (densities and pressures x 1e-24, interstellar cgs); huge: lengths x 1e8, times x 1e9, masses x 1e24.
+EXTREME = [("X:micro(M+L+T)", {"M": 1e-21, "L": 1e-7, "T": 1e-9}), ("X:dilute(M)", {"M": 1e-24}), ("X:huge(M+L+T)", {"M": 1e24, "L": 1e8, "T": 1e9})]
 FLOOR = 1e-3          # |a-b| <= tol * (max(|a|,|b|) + FLOOR * S), S = largest magnitude of the field over the profile
 GUD_FACTOR = 0.750024322   # documented in guderley/ramsey.py: t_C = 0.750024322 (t_L + 1)
 
@@ -237,6 +242,10 @@ def run_task(task):
     side = f.get("side")
     side_root = side(root) if side else None
     nodes, transitions = orbit.bfs(root_node(f), generators(f), task["depth"])
+    if all(g in f["gens"] for g in ("M", "L", "T")):
+        for xname, xs in EXTREME:
+            nodes[xname] = {"node": dict(root_node(f), **xs), "word": [xname], "merged": 0}
+            transitions += 1
     res["states"], res["transitions"] = len(nodes), transitions
     tol = f["tol"]
     seen = set()
@@ -258,7 +267,7 @@ def run_task(task):
         pts_n = pts * scale.get("L", 1.0)
         t_n = node_time(f, node, t, scale)
         word = ".".join(rec["word"]) or "identity"
-        sig = sig_of(node)
+        sig = word if word.startswith("X:") else sig_of(node)      # the extreme unit systems are reported under their own name
         try:
             s = prebuilt[key]
             if isinstance(s, Exception):
